@@ -7,6 +7,7 @@ from hypothesis import strategies as st
 from checks.common import (S, Raised, call, coplanarity_ambiguous, cyc_equal, diameter, face_key, get, maxnorm,
                            perm_from_noise)
 from gen import zoo
+from gen.zoo import unit
 from harness.runner import EPS, Clause
 from oracle import geom
 
@@ -21,7 +22,8 @@ ASSUMPTIONS = ["inputs whose coplanarity is ambiguous (a vertex between 1e-12 an
 
 @st.composite
 def _case(draw, max_n=24, far=False):
-    return {"cvx": draw(zoo.convex3d(max_n=max_n)), "place": draw(zoo.placement(max_offset=5.0, scale_decades=1.0)),
+    return {"cvx": draw(zoo.convex3d(max_n=max_n, kinds=("ellipsoid", "lattice", "prismatoid", "tabulated", "roofed"))),
+            "place": draw(zoo.placement(max_offset=5.0, scale_decades=1.0)),
             "far": draw(st.sampled_from([3.0, 4.0, 5.0, 5.5, 6.0, 6.5])) if far else None,
             "perm": draw(zoo.noise(64)), "fperm": draw(zoo.noise(200)), "mode": draw(st.sampled_from(["shuffle", "reverse", "keep"])),
             "mixed": draw(st.booleans()),
@@ -270,12 +272,61 @@ def _merge(case, rec):
     _check_structure(rec, P, V, facets, nrm, off, edges, nb, sig, amb, False)
 
 
+def _merge_tol(case, rec):
+    """merge_faces(atol, rtol): the documented criterion (numpy.allclose on the plane equations of neighbouring faces)
+    with non-default tolerances. The vertices are jittered by 1e-7 diameters, so that the triangles of one facet differ
+    by ~1e-6 in their equations: far beyond the default atol, far within atol = rtol = 1e-3, while distinct neighbouring
+    facets of the drawn solids differ by more than 0.05 in some component."""
+    c = zoo.build_convex(case["cvx"])
+    V, R, t, s = zoo.apply_placement(dict(case["place"], tmag=0.0), c["verts"])
+    V = V - geom.mesh_moments(V, geom.convex_facets(V)[0])["centroid"]  # origin well inside: every plane offset is sizeable
+    facets, nrm, off, edges, nb = _oracle(V)
+    D = diameter(V)
+    sig = {"cls": "Polyhedron", "op": "merge_faces(atol,rtol)", "args": "keywords" if case["mixed"] else "positional"}
+    if float(np.min(np.abs(off))) < 0.1 * D:
+        # the merged faces are rebuilt as polygons, whose planarity test allows 1e-8 + 1e-5*|d|: the jitter below must fit
+        rec.label("outside_domain:face_plane_near_origin")
+        return
+    for i, js in nb.items():
+        for j in js:
+            if np.max(np.abs(nrm[i] - nrm[j])) < 0.05 and abs(off[i] - off[j]) < 0.05 * max(1.0, abs(off[i])):
+                rec.label("outside_domain:flat_dihedral")
+                return
+    emin = min(float(np.linalg.norm(V[a] - V[b])) for a, b in edges)
+    if emin < 0.02 * D or maxnorm(V) > 50:
+        rec.label("outside_domain:short_edges_or_large")
+        return
+    u = unit(case["perm"])
+    J = np.stack([np.cos(7.0 * np.arange(len(V)) + 6.28 * u[0]), np.sin(3.0 * np.arange(len(V)) + 6.28 * u[1]), np.cos(5.0 * np.arange(len(V)) + 1.0)], axis=1)
+    W = V + 1e-7 * D * J
+    T = [[fc[0], fc[i], fc[i + 1]] for fc in facets for i in range(1, len(fc) - 1)]
+    rec.concrete = {"vertices": W, "faces": T}
+    P = call(S.Polyhedron, W.copy(), _faces_as(T, case.get("fdtype", "int64")))
+    if isinstance(P, Raised):
+        rec.fail("construct", dict(sig, type=P.type), msg=P.msg)
+        return
+    r = call(P.merge_faces, atol=1e-3, rtol=1e-3) if case["mixed"] else call(P.merge_faces, 1e-3, 1e-3)
+    if isinstance(r, Raised):
+        rec.fail("merge_faces", dict(sig, type=r.type), msg=r.msg)
+        return
+    maxdeg = max(len(f) for f in facets)
+    axis = bool(np.any(np.abs(nrm) < 1e-6))
+    rec.label("nontriangular" if maxdeg > 3 else "alltriangles", "kind:" + case["cvx"]["kind"], "args:" + sig["args"],
+              "axis_aligned_normals" if axis else None)
+    rec.nontrivial = maxdeg > 3
+    got = {face_key([int(i) for i in fc]) for fc in P.faces}
+    want = {face_key(fc) for fc in facets}
+    rec.check(got == want and len(P.faces) == len(facets), "faces_are_hull_facets", sig, got=[sorted(k) for k in got][:6], want=[sorted(k) for k in want][:6])
+
+
 def clauses():
     return [
         Clause("convex_structure", _case(), _convex, quick=1500, thorough=12000, rule="ConvexPolyhedron", floors={"nontriangular": 0.3}),
         Clause("sort_faces", _case(14), _sort, quick=750, thorough=6000, rule="Polyhedron.sort_faces", floors={"faces_disordered": 0.3}),
         Clause("merge_faces", _case(14), _merge, quick=750, thorough=6000, rule="Polyhedron.merge_faces",
                floors={"nontriangular": 0.3, "winding:mixed": 0.25}),
+        Clause("merge_faces_with_tolerances", _case(14), _merge_tol, quick=500, thorough=4000,
+               rule="merge_faces(atol=1e-3, rtol=1e-3) on triangulated facets of solids jittered by 1e-7 diameters", floors={"nontriangular": 0.15, "axis_aligned_normals": 0.05}),
         Clause("sort_faces_far_from_origin", _case(12, True), _sort, quick=600, thorough=4000,
                rule="sort_faces on shapes 1e3..3e6 diameters away from the origin", floors={}),
         Clause("merge_faces_far_from_origin", _case(12, True), _merge, quick=600, thorough=4000,
